@@ -335,7 +335,7 @@ def run(tier, t0):
                 deep.append(((i + r + common.seed() + 5 * j) % 12, (i * 3 + r + j) % 5) + d)
     for ch in common.chunks(sorted(set(deep)), 12):
         tasks.append(('paths', ch, depth))
-    for skind, lon, lat in geo.special_sites():
+    for skind, lon, lat in geo.special_sites(tier, common.seed()):
         rs = list(range(2, 30)) if tier == 'thorough' or skind == 'pole' else list(range(2 + common.seed() % 3, 30, 3)) + [27, 28, 29]
         tasks.append(('site', skind, lon, lat, sorted(set(rs)), depth))
     tasks = common.rotate(tasks, common.seed())
